@@ -37,11 +37,11 @@
         res is Ok ==> publish_post(*old(self), *final(self), name@, meta.enc(), data@, start.v),
         res is Ok ==> ({
             let e0 = ec(*old(self));
-            let rest = e0.remove(e0.index_of(start.v));
+            let rest = without(e0, e0.index_of(start.v));
             let rem = (start.v + psize::<Meta>(name@, data@)) as u64;
             // C26 (2): the reused block leaves the empty chain; what is left of it becomes the new head
             // of the chain; every other empty block stays on the chain, in order
-            ec(*final(self)) == if empty.size > psize::<Meta>(name@, data@) { seq![rem] + rest } else { rest }
+            ec(*final(self)) == if empty.size > psize::<Meta>(name@, data@) { cons(rem, rest) } else { rest }
         }),
 //@ entry
         let ghost a0 = *self;
@@ -65,7 +65,7 @@
             let h = hash as int;
             let nl = name.len(); let dl = data.len();
             let es = hdr(a0.file, s).size;
-            let e1 = e0.remove(k);
+            let e1 = without(e0, k);
             assert(member(a0, e0, bs0, Seq::empty(), s));
             assert(block_ok(a0, s));
             assert(hdr(a0.file, s).next == ptr(e0, k + 1));
@@ -132,7 +132,7 @@
             let a2 = *self;
             let merged = hdr(a0.file, n as u64).is_empty;
             let kn = e0.index_of(n as u64);
-            let e1 = if merged { e0.remove(kn) } else { e0 };
+            let e1 = if merged { without(e0, kn) } else { e0 };
             assert(forall|b: int| 0 <= b < nb(a0) ==> #[trigger] slot(a2.file, b) == slot(a0.file, b));
             if n == a0.file.size {
                 assert forall|p: u64| #[trigger] member(a0, e0, bs0, hl, p) && p != start implies same_obj(a0, a2, p) by {
@@ -239,7 +239,7 @@
         res is Ok ==> {
             let k = ec(*old(self)).index_of(start);
             // C26 (1): afterwards the chain is the old one without `start`, all other blocks still on it
-            &&& is_chain(final(self).file, ehead(*final(self)), ec(*old(self)).remove(k))
+            &&& is_chain(final(self).file, ehead(*final(self)), without(ec(*old(self)), k))
             &&& final(self).file.size == old(self).file.size
             // frame: only the predecessor's `next` field, or the head slot, was written
             &&& k > 0 ==> wrote(old(self).file, final(self).file, ec(*old(self))[k - 1] + 8, ec(*old(self))[k - 1] + 16)
@@ -289,6 +289,14 @@ spec fn fits_spec(e: int, o: int) -> bool { e == o || e >= o + hs() }
 // c[i] as a stored pointer; None behind the last element.
 spec fn ptr(c: Seq<u64>, i: int) -> Option<NonZeroU64> {
     if 0 <= i < c.len() { Some(NonZeroU64 { v: c[i] }) } else { None }
+}
+
+// c without its k-th element; x in front of c (own definitions: plain index axioms)
+spec fn without(c: Seq<u64>, k: int) -> Seq<u64> {
+    Seq::new((c.len() - 1) as nat, |i: int| if i < k { c[i] } else { c[i + 1] })
+}
+spec fn cons(x: u64, c: Seq<u64>) -> Seq<u64> {
+    Seq::new(c.len() + 1, |i: int| if i == 0 { x } else { c[i - 1] })
 }
 
 // `c` is the list of block positions reached from `head` by following `next`: it ends (acyclic),
@@ -367,13 +375,13 @@ proof fn lemma_unlink<M>(a0: Archive<M>, c: Seq<u64>, k: int)
         forall|a2: Archive<M>| #![trigger ehead(a2)]
             a2.meta == a0.meta && k > 0 && wrote(a0.file, a2.file, c[k - 1] + 8, c[k - 1] + 16)
             && hdr(a2.file, c[k - 1]) == (ObjectHeader { next: hdr(a0.file, c[k]).next, ..hdr(a0.file, c[k - 1]) })
-            ==> is_chain(a2.file, ehead(a2), c.remove(k)),
+            ==> is_chain(a2.file, ehead(a2), without(c, k)),
         forall|a2: Archive<M>| #![trigger ehead(a2)]
             a2.meta == a0.meta && k == 0 && wrote(a0.file, a2.file, slot_pos(nb(a0)), slot_pos(nb(a0)) + 8)
             && slot(a2.file, nb(a0)) == raw(hdr(a0.file, c[0]).next)
-            ==> is_chain(a2.file, ehead(a2), c.remove(k)),
+            ==> is_chain(a2.file, ehead(a2), without(c, k)),
 {
-    let c2 = c.remove(k);
+    let c2 = without(c, k);
     assert forall|a2: Archive<M>| #![trigger ehead(a2)]
             a2.meta == a0.meta && k > 0 && wrote(a0.file, a2.file, c[k - 1] + 8, c[k - 1] + 16)
             && hdr(a2.file, c[k - 1]) == (ObjectHeader { next: hdr(a0.file, c[k]).next, ..hdr(a0.file, c[k - 1]) })
@@ -463,7 +471,7 @@ spec fn publish_post<M: ObjectMeta>(a1: Archive<M>, a2: Archive<M>, name: Seq<u8
     let h = hash_spec(a1.meta, name) as int;
     &&& wf(a2)
     &&& a2.meta == a1.meta
-    &&& bc(a2, h) == seq![pos] + bc(a1, h)
+    &&& bc(a2, h) == cons(pos, bc(a1, h))
     &&& forall|b: int| 0 <= b < nb(a1) && b != h ==> #[trigger] bc(a2, b) == bc(a1, b)
     &&& name_at(a2.file, pos) == name && meta_at(a2.file, pos, ms::<M>()) == meta && data_at(a2.file, pos, ms::<M>()) == data
     &&& forall|b: int, i: int| 0 <= b < nb(a1) && 0 <= i < bc(a1, b).len() ==> same_obj(a1, a2, #[trigger] bc(a1, b)[i])
@@ -513,7 +521,7 @@ spec fn replace_summary<M: ObjectMeta>(a0: Archive<M>, a5: Archive<M>, name: Seq
     let h = hash_spec(a0.meta, name) as int;
     let ps = psize::<M>(name, data);
     let es = hdr(a0.file, s).size;
-    let e1 = e0.remove(k);
+    let e1 = without(e0, k);
     &&& a5.meta == a0.meta && a5.file.size == a0.file.size
     // all other blocks are untouched
     &&& forall|p: u64| #[trigger] member(a0, e0, bs0, Seq::empty(), p) && p != s && (k > 0 ==> p != e0[k - 1]) ==> same_obj(a0, a5, p)
@@ -575,11 +583,11 @@ proof fn lemma_lay_is_wf<M: ObjectMeta>(a: Archive<M>, e: Seq<u64>, bs: Seq<Seq<
 
 // the layout after publish_replace
 spec fn replace_e<M: ObjectMeta>(a0: Archive<M>, name: Seq<u8>, data: Seq<u8>, s: u64, k: int) -> Seq<u64> {
-    if hdr(a0.file, s).size > psize::<M>(name, data) { seq![(s + psize::<M>(name, data)) as u64] + ec(a0).remove(k) } else { ec(a0).remove(k) }
+    if hdr(a0.file, s).size > psize::<M>(name, data) { cons((s + psize::<M>(name, data)) as u64, without(ec(a0), k)) } else { without(ec(a0), k) }
 }
 spec fn publish_bs<M>(a0: Archive<M>, name: Seq<u8>, s: u64) -> Seq<Seq<u64>> {
     let h = hash_spec(a0.meta, name) as int;
-    bcs(a0).update(h, seq![s] + bcs(a0)[h])
+    bcs(a0).update(h, cons(s, bcs(a0)[h]))
 }
 spec fn replace_pre<M: ObjectMeta>(a0: Archive<M>, a5: Archive<M>, name: Seq<u8>, meta: Seq<u8>, data: Seq<u8>, s: u64, k: int) -> bool {
     &&& wf(a0) && name.len() < lim() && data.len() < lim() && ms::<M>() < lim()
@@ -603,7 +611,7 @@ proof fn lemma_replace_transfer<M: ObjectMeta>(a0: Archive<M>, a5: Archive<M>, n
     broadcast use hash_in_range;
     let e0 = ec(a0); let bs0 = bcs(a0); let e2 = replace_e(a0, name, data, s, k); let bs2 = publish_bs(a0, name, s);
     let h = hash_spec(a0.meta, name) as int;
-    let e1 = e0.remove(k);
+    let e1 = without(e0, k);
     assert(hdr(a0.file, e0[k]).is_empty);
     assert forall|q: u64| #[trigger] member(a0, e0, bs0, Seq::empty(), q) && q != s implies {
             &&& member(a5, e2, bs2, Seq::empty(), q)
@@ -641,7 +649,7 @@ proof fn lemma_replace_echain<M: ObjectMeta>(a0: Archive<M>, a5: Archive<M>, nam
     let e0 = ec(a0); let bs0 = bcs(a0); let e2 = replace_e(a0, name, data, s, k); let bs2 = publish_bs(a0, name, s);
     let h = hash_spec(a0.meta, name) as int;
     let ps = psize::<M>(name, data); let es = hdr(a0.file, s).size;
-    let e1 = e0.remove(k);
+    let e1 = without(e0, k);
     let no = Seq::<u64>::empty();
     lemma_lay_facts(a0, e0, bs0, no);
     assert(member(a0, e0, bs0, no, e0[k]));
@@ -724,7 +732,7 @@ proof fn lemma_replace_bucket<M: ObjectMeta>(a0: Archive<M>, a5: Archive<M>, nam
     }
     if b == h {
         let c2 = bs2[b];
-        assert(c2 == seq![s] + c);
+        assert(c2 == cons(s, c));
         assert(bc(a0, h) == c);
         assert(c2[0] == s);
         assert forall|i: int| 0 <= i < c2.len() implies c2[i] != 0 && (#[trigger] hdr(a5.file, c2[i])).next == ptr(c2, i + 1)
@@ -792,7 +800,7 @@ proof fn lemma_replace_members<M: ObjectMeta>(a0: Archive<M>, a5: Archive<M>, na
     let e0 = ec(a0); let bs0 = bcs(a0); let e2 = replace_e(a0, name, data, s, k); let bs2 = publish_bs(a0, name, s);
     let h = hash_spec(a0.meta, name) as int;
     let ps = psize::<M>(name, data); let es = hdr(a0.file, s).size;
-    let e1 = e0.remove(k);
+    let e1 = without(e0, k);
     let no = Seq::<u64>::empty();
     lemma_lay_facts(a0, e0, bs0, no);
     assert(bs2[h][0] == s);
@@ -873,7 +881,7 @@ proof fn lemma_replace<M: ObjectMeta>(a0: Archive<M>, a5: Archive<M>, name: Seq<
         replace_summary(a0, a5, name, meta, data, s, k),
     ensures
         publish_post(a0, a5, name, meta, data, s),
-        ec(a5) == if hdr(a0.file, s).size > psize::<M>(name, data) { seq![(s + psize::<M>(name, data)) as u64] + ec(a0).remove(k) } else { ec(a0).remove(k) },
+        ec(a5) == if hdr(a0.file, s).size > psize::<M>(name, data) { cons((s + psize::<M>(name, data)) as u64, without(ec(a0), k)) } else { without(ec(a0), k) },
 {
     lemma_replace_chains(a0, a5, name, meta, data, s, k);
     lemma_replace_tiles(a0, a5, name, meta, data, s, k);
@@ -916,8 +924,8 @@ spec fn is_hole<M>(a: Archive<M>, p: u64) -> bool {
 spec fn ce_e<M>(a0: Archive<M>, start: u64) -> Seq<u64> {
     let n = blk_end(a0, start);
     if n == a0.file.size { ec(a0) }
-    else if hdr(a0.file, n as u64).is_empty { seq![start] + ec(a0).remove(ec(a0).index_of(n as u64)) }
-    else { seq![start] + ec(a0) }
+    else if hdr(a0.file, n as u64).is_empty { cons(start, without(ec(a0), ec(a0).index_of(n as u64))) }
+    else { cons(start, ec(a0)) }
 }
 // C26 (1): the freed block (merged with an empty right neighbour, which leaves the chain) becomes the
 // head of the empty chain, or the file is cut off in front of it when it was the last block; all other
@@ -933,7 +941,7 @@ spec fn ce_summary<M: ObjectMeta>(a0: Archive<M>, a2: Archive<M>, start: u64) ->
     let n = blk_end(a0, start);
     let merged = hdr(a0.file, n as u64).is_empty;
     let kn = e0.index_of(n as u64);
-    let e1 = if merged { e0.remove(kn) } else { e0 };
+    let e1 = if merged { without(e0, kn) } else { e0 };
     &&& a2.meta == a0.meta
     &&& forall|b: int| 0 <= b < nb(a0) ==> #[trigger] slot(a2.file, b) == slot(a0.file, b)
     &&& n == a0.file.size ==> {
@@ -1030,7 +1038,7 @@ proof fn lemma_ce_echain<M: ObjectMeta>(a0: Archive<M>, a2: Archive<M>, start: u
     let merged = ce_merged(a0, start);
     lemma_lay_facts(a0, e0, bs0, hl);
     lemma_ce_n(a0, start);
-    let e1 = if merged { e0.remove(kn) } else { e0 };
+    let e1 = if merged { without(e0, kn) } else { e0 };
     assert forall|i: int| 0 <= i < e1.len() implies
         e1[i] != 0 && (#[trigger] hdr(a2.file, e1[i])).next == ptr(e1, i + 1) && hdr(a2.file, e1[i]).is_empty && e1[i] != start by {
         let i0 = if merged && i >= kn { i + 1 } else { i };
@@ -1050,7 +1058,7 @@ proof fn lemma_ce_echain<M: ObjectMeta>(a0: Archive<M>, a2: Archive<M>, start: u
     if n == a0.file.size {
         assert(e2 == e1);
     } else {
-        assert(e2 == seq![start] + e1);
+        assert(e2 == cons(start, e1));
         assert(e2[0] == start);
         assert forall|i: int| 0 <= i < e2.len() implies e2[i] != 0 && (#[trigger] hdr(a2.file, e2[i])).next == ptr(e2, i + 1) && hdr(a2.file, e2[i]).is_empty by {
             if i > 0 { assert(e2[i] == e1[i - 1]); assert(hdr(a2.file, e1[i - 1]).is_empty); }
@@ -1093,7 +1101,7 @@ proof fn lemma_ce_members<M: ObjectMeta>(a0: Archive<M>, a2: Archive<M>, start: 
     let merged = ce_merged(a0, start);
     lemma_lay_facts(a0, e0, bs0, hl);
     lemma_ce_n(a0, start);
-    let e1 = if merged { e0.remove(kn) } else { e0 };
+    let e1 = if merged { without(e0, kn) } else { e0 };
     assert(hl[0] == start);
     assert(member(a0, e0, bs0, hl, start));
     assert(block_ok(a0, start));
